@@ -668,6 +668,34 @@ pub fn gen(rng: &mut Rng, tier: &str, out: &mut Vec<String>) {
         }
     }
 
+    // (I) `from_iterable_entropy_model` / `to_generic_*` of sources with an ARBITRARY symbol table
+    //     (valid, shifted, gaps, overlaps, too little / too much mass, empty, repeated symbols,
+    //     wraps at P == B): the validation added for D31 / D32 and what follows it
+    for &(b, ps) in BPS {
+        for &p in ps {
+            for _ in 0..(if thorough { 4 } else { 1 }) {
+                for (_class, tbl) in lying_tables(rng, b, p) {
+                    for target in ["dec", "gdec", "lookup", "enc", "genc"] {
+                        let mut line = format!("cat.fromtable {} {:x} {:x} {}", target, b, p, show_triples(&tbl));
+                        let syms: Vec<u128> = tbl.iter().map(|e| e.0 as u128).chain([0u128, 1, 99, 1 << 32]).collect();
+                        if target.ends_with("enc") {
+                            line.push_str(&format!(" | support | encs {}", show_list(syms)));
+                        } else {
+                            line.push_str(" | table | support");
+                            if p <= 12 {
+                                line.push_str(&format!(" | decsweep 0 {:x}", pow2(p)));
+                            } else {
+                                line.push_str(&format!(" | decsweep 0 100 | decsweep {:x} {:x}", pow2(p) - 0x100, pow2(p)));
+                            }
+                            line.push_str(" | togenenc | support");
+                        }
+                        out.push(line);
+                    }
+                }
+            }
+        }
+    }
+
     // (G) the transcription of `binary_search_by` --------------------------------------------
     let n_bs = if thorough { 6000 } else { 500 };
     for i in 0..n_bs {
